@@ -92,7 +92,7 @@ class C12(Prop):
         rewritten = set(x.split(":", 1)[1] for r_ in obs if r_[2].get("outcome") == "updated" for x in r_[2]["writes"].split(",") if x != "-")
         for r_ in results:
             if r_[0] == "snappath" and r_[2].get("cfgsame") == "0":
-                fails.append({"msg": "snappath %s: resolving a location changed the Config it was resolved for (or the package defaults)" % r_[1]})
+                fails.append({"msg": "snappath %s: the memory of the Config (or of the package defaults) differs after resolving a location" % r_[1], "tie": True})
         for (name, kv), (_, idx, o) in zip(op_with_obs, obs):
             if name == "newconfig":
                 cfgs.append(kv)
@@ -103,7 +103,8 @@ class C12(Prop):
                     k_of.pop(key)
             elif name == "match" and kv.get("pre") != "novalues":
                 if o.get("cfgsame") == "0":
-                    fails.append({"msg": "obs %d (%s via handle %s): the call changed the Config it went through (some field, or something a field points to, differs after the call)" % (idx, kv["api"], kv["h"])})
+                    # (a tie-level complaint: a lazily filled cache inside the Config is also "a difference in memory")
+                    fails.append({"msg": "obs %d (%s via handle %s): the memory of the Config differs after the call (some field, or something a field points to)" % (idx, kv["api"], kv["h"]), "tie": True})
                 h = int(kv["h"])
                 if h > len(cfgs):
                     continue
@@ -117,7 +118,7 @@ class C12(Prop):
                 else:
                     exp = G.expected_multi_path(cfg, api, kv["test"], **({"caller_base": "zz_verif_util_test"} if kv.get("via") == "util" else {}))
                 if o["outcome"] in ("added", "updated"):
-                    w = [x.split(":", 1)[1] for x in o["writes"].split(",") if x != "-"]
+                    w = [x.split(":", 1)[1] for x in o["writes"].split(",") if x != "-" and b".snap" in unhx(x.split(":", 1)[1]).rsplit(b"/", 1)[-1]]
                     got = [unhx(x).decode("latin-1") for x in w]
                     ok = (len(got) == 1 and exp.match(got[0])) if hasattr(exp, "match") else got == [exp]
                     if not ok:
